@@ -118,6 +118,30 @@ theorem elem_lawful {C : Codecs} {T : String → Prop} (hC : LawfulCodecs C T) {
     exact ⟨bs, he, hC.size t size v bs v hT hsize he, this⟩
   · cases hfix
 
+/-- the length of a buffer read, from the relations: the value of the length expression in the run — a field
+    expression over fields already read, or the local `padLen`, which the relations track -/
+theorem rel_readBytes_eval {C : Codecs} {env' : Env} {plen pad : Nat} {b : Blk} {f : String} {m : Expr} {r : List UStmt}
+    {seen : List String} {s : UState}
+    (hrel : relationsHold C env' plen pad (.readBytes b f m :: r) = true)
+    (hc : (m == .pad || m.closed seen) = true) (hag : Agree seen s.env env') (hpd : s.pad = pad) :
+    ∃ bs, env'.get f = some (.b bs) ∧ evalExpr s m = some bs.length ∧ relationsHold C env' plen pad r = true := by
+  by_cases hm : m = .pad
+  · subst hm
+    unfold relationsHold at hrel
+    rw [Bool.and_eq_true] at hrel
+    have h1 := hrel.1
+    split at h1
+    · rename_i bs hget _
+      exact ⟨bs, hget, by simp only [evalExpr, hpd]; congr 1; exact (by simpa using h1 : bs.length = pad).symm, hrel.2⟩
+    · rename_i hne; exact (hne rfl).elim
+    · cases h1
+  · have hcl : m.closed seen = true := by
+      rcases Bool.or_eq_true_iff.mp hc with h | h
+      · exact absurd (by simpa using h) hm
+      · exact h
+    obtain ⟨⟨bs, hget, heval⟩, hr⟩ := rel_readBytes hrel hm
+    exact ⟨bs, hget, by rw [evalExpr_closed s env' seen hag m hcl, heval], hr⟩
+
 /-! ### a guard in front of a read cannot fail -/
 
 theorem guard_passesL {C : Codecs} {T : String → Prop} (hC : LawfulCodecs C T) (env' : Env) (plen : Nat) (hp hd : Bool)
@@ -126,7 +150,7 @@ theorem guard_passesL {C : Codecs} {T : String → Prop} (hC : LawfulCodecs C T)
       layoutUL r = some u → okUL hp hd pos seen r = true → guardFitsL b e r = true →
       relationsHold C env' plen pad r = true →
       (∀ sl ∈ u, SlotFit C T env' sl) →
-      Inv C env' pos s.P s.D s.offset u → Agree seen s.env env' → Recv (recvFields r) s.env env' →
+      Inv C env' pos s.P s.D s.offset u → Agree seen s.env env' → Recv (recvFields r) s.env env' → s.pad = pad →
       ∃ n, evalExpr s e = some n ∧ s.offset + n ≤ (s.blk b).length := by
   induction r using layoutUL.induct with
   | case1 => intro u pos seen s pad _ _ hg; simp [guardFitsL] at hg
@@ -134,7 +158,7 @@ theorem guard_passesL {C : Codecs} {T : String → Prop} (hC : LawfulCodecs C T)
   | case3 r _ => intro u pos seen s pad _ _ hg; simp [guardFitsL] at hg
   | case4 b' e' r _ => intro u pos seen s pad _ _ hg; simp [guardFitsL] at hg
   | case5 b' e' f n r _ =>
-    intro u pos seen s pad hl hok hg hrel hfit hinv hag hsz
+    intro u pos seen s pad hl hok hg hrel hfit hinv hag hsz hpd
     simp only [layoutUL, if_true, Option.map_eq_some_iff] at hl
     obtain ⟨u', hl', rfl⟩ := hl
     simp only [okUL, Bool.and_eq_true] at hok
@@ -150,7 +174,7 @@ theorem guard_passesL {C : Codecs} {T : String → Prop} (hC : LawfulCodecs C T)
     omega
   | case6 b' w e' f n r hne => intro u pos seen s pad hl; simp [layoutUL, hne] at hl
   | case7 b' e' f n r _ =>
-    intro u pos seen s pad hl hok hg hrel hfit hinv hag hsz
+    intro u pos seen s pad hl hok hg hrel hfit hinv hag hsz hpd
     simp only [layoutUL, if_true, Option.map_eq_some_iff] at hl
     obtain ⟨u', hl', rfl⟩ := hl
     simp only [okUL, Bool.and_eq_true] at hok
@@ -166,7 +190,7 @@ theorem guard_passesL {C : Codecs} {T : String → Prop} (hC : LawfulCodecs C T)
     omega
   | case8 b' w e' f n r hne => intro u pos seen s pad hl; simp [layoutUL, hne] at hl
   | case9 b' f r _ =>
-    intro u pos seen s pad hl hok hg hrel hfit hinv hag hsz
+    intro u pos seen s pad hl hok hg hrel hfit hinv hag hsz hpd
     simp only [layoutUL, Option.map_eq_some_iff] at hl
     obtain ⟨u', hl', rfl⟩ := hl
     simp only [okUL, Bool.and_eq_true] at hok
@@ -181,15 +205,14 @@ theorem guard_passesL {C : Codecs} {T : String → Prop} (hC : LawfulCodecs C T)
     simp only [Slot.blk, slotBytes, hx, List.length_append, List.length_cons, List.length_nil] at hlen
     omega
   | case10 b' f m r _ =>
-    intro u pos seen s pad hl hok hg hrel hfit hinv hag hsz
+    intro u pos seen s pad hl hok hg hrel hfit hinv hag hsz hpd
     simp only [layoutUL, if_true, Option.map_eq_some_iff] at hl
     obtain ⟨u', hl', rfl⟩ := hl
     simp only [okUL, Bool.and_eq_true] at hok
     simp only [guardFitsL, Bool.and_eq_true, beq_iff_eq] at hg
     obtain ⟨rfl, hle⟩ := hg
-    obtain ⟨⟨bs, hget, heval⟩, _⟩ := rel_readBytes hrel (closed_ne_pad hok.1.2)
+    obtain ⟨bs, hget, hm, _⟩ := rel_readBytes_eval hrel hok.1.2 hag hpd
     obtain ⟨pre, hblk, hoff⟩ := hinv.at (sl := .bytes b f (some m)) hok.1.1
-    have hm : evalExpr s m = some bs.length := by rw [evalExpr_closed s env' seen hag m hok.1.2, heval]
     obtain ⟨j, hj, hjn⟩ := exprLe_eval s e m hle _ hm
     refine ⟨j, hj, ?_⟩
     rw [blk_eq_pick]
@@ -200,7 +223,7 @@ theorem guard_passesL {C : Codecs} {T : String → Prop} (hC : LawfulCodecs C T)
   | case12 b' g r _ => intro u pos seen s pad _ _ hg; simp [guardFitsL] at hg
   | case13 b' f g r hne => intro u pos seen s pad hl; simp [layoutUL, hne] at hl
   | case14 b' f m r _ =>
-    intro u pos seen s pad hl hok hg hrel hfit hinv hag hsz
+    intro u pos seen s pad hl hok hg hrel hfit hinv hag hsz hpd
     simp only [layoutUL, if_true, Option.map_eq_some_iff] at hl
     obtain ⟨u', hl', rfl⟩ := hl
     simp only [okUL, Bool.and_eq_true] at hok
@@ -216,7 +239,7 @@ theorem guard_passesL {C : Codecs} {T : String → Prop} (hC : LawfulCodecs C T)
     omega
   | case15 b' f n m r hne => intro u pos seen s pad hl; simp [layoutUL, hne] at hl
   | case16 b' f t win r _ =>
-    intro u pos seen s pad hl hok hg hrel hfit hinv hag hsz
+    intro u pos seen s pad hl hok hg hrel hfit hinv hag hsz hpd
     simp only [layoutUL, Option.map_eq_some_iff] at hl
     obtain ⟨u', hl', rfl⟩ := hl
     simp only [okUL, Bool.and_eq_true] at hok
@@ -236,7 +259,7 @@ theorem guard_passesL {C : Codecs} {T : String → Prop} (hC : LawfulCodecs C T)
       simp only [Slot.blk, slotBytes, hget, henc, List.length_append] at hlen
       omega
   | case17 f g b' w e' f' g' r hfg _ =>
-    intro u pos seen s pad hl hok hg hrel hfit hinv hag hsz
+    intro u pos seen s pad hl hok hg hrel hfit hinv hag hsz hpd
     obtain ⟨rfl, rfl⟩ := hfg
     simp only [layoutUL, and_self, if_true, Option.map_eq_some_iff] at hl
     obtain ⟨u', hl', rfl⟩ := hl
@@ -254,7 +277,7 @@ theorem guard_passesL {C : Codecs} {T : String → Prop} (hC : LawfulCodecs C T)
     omega
   | case18 f g b' w e' f' g' r hne => intro u pos seen s pad hl; simp [layoutUL, hne] at hl
   | case19 b' w e' f r _ =>
-    intro u pos seen s pad hl hok hg hrel hfit hinv hag hsz
+    intro u pos seen s pad hl hok hg hrel hfit hinv hag hsz hpd
     simp only [layoutUL, Option.map_eq_some_iff] at hl
     obtain ⟨u', hl', rfl⟩ := hl
     simp only [okUL, Bool.and_eq_true] at hok
@@ -270,7 +293,7 @@ theorem guard_passesL {C : Codecs} {T : String → Prop} (hC : LawfulCodecs C T)
   | case20 b' f g t size r _ => intro u pos seen s pad _ _ hg; simp [guardFitsL] at hg
   | case21 f b' f' g t size r hne => intro u pos seen s pad hl; simp [layoutUL, hne] at hl
   | case22 b' f n =>
-    intro u pos seen s pad hl hok hg hrel hfit hinv hag hsz
+    intro u pos seen s pad hl hok hg hrel hfit hinv hag hsz hpd
     simp only [layoutUL, Option.some.injEq] at hl
     subst hl
     simp only [okUL, Bool.and_eq_true] at hok
@@ -287,7 +310,10 @@ theorem guard_passesL {C : Codecs} {T : String → Prop} (hC : LawfulCodecs C T)
     omega
   | case23 k b' n b'' w e' f m r hc _ => intro u pos seen s pad _ _ hg; simp [guardFitsL] at hg
   | case24 k b' n b'' w e' f m r hc => intro u pos seen s pad hl; simp [layoutUL, hc] at hl
-  | case25 head tail h1 h2 h3 h4 h5 h6 h7 h8 h9 h10 h11 h12 h13 h14 h15 =>
+  | case25 e' r _ => intro u pos seen s pad _ _ hg; simp [guardFitsL] at hg
+  | case26 r _ => intro u pos seen s pad _ _ hg; simp [guardFitsL] at hg
+  | case27 r _ => intro u pos seen s pad _ _ hg; simp [guardFitsL] at hg
+  | case28 head tail h1 h2 h3 h4 h5 h6 h7 h8 h9 h10 h11 h12 h13 h14 h15 h16 h17 h18 =>
     intro u pos seen s pad hl
     rw [layoutUL] at hl
     · cases hl
@@ -311,19 +337,19 @@ theorem runU_go_layoutL {C : Codecs} {T : String → Prop} (hC : LawfulCodecs C 
       (∀ sl ∈ u, SlotFit C T env' sl) →
       (∀ b, restOnlyLast (u.filter (·.blk == b)) = true) →
       Inv C env' pos s.P s.D s.offset u → Agree seen s.env env' → Recv (recvFields stmts) s.env env' →
-      WcTells env' s.wordCount u →
+      WcTells env' s.wordCount u → s.pad = pad → s.P.length = plen →
       ∃ d, runU.go C s stmts = .ok d ∧ (∀ g ∈ seen, d.get g = env'.get g) ∧
         (NoFire hp hd s.P s.D → ∀ g, (g ∈ seen ∨ g ∈ u.map Slot.field) → d.get g = env'.get g) := by
   induction stmts using layoutUL.induct with
   | case1 =>
-    intro u pos seen s pad hl _ _ _ _ _ hag _ _
+    intro u pos seen s pad hl _ _ _ _ _ hag _ _ _ _
     simp only [layoutUL, Option.some.injEq] at hl; subst hl
     refine ⟨s.env, go_nil C s, fun g hg => hag g hg, fun _ g hg => ?_⟩
     rcases hg with hg | hg
     · exact hag g hg
     · simp at hg
   | case2 p d r ih =>
-    intro u pos seen s pad hl hok hrel hfit hrest hinv hag hsz hwc
+    intro u pos seen s pad hl hok hrel hfit hrest hinv hag hsz hwc hpd hpl
     simp only [recvFields] at hsz
     simp only [layoutUL] at hl
     simp only [okUL, Bool.and_eq_true] at hok
@@ -349,29 +375,29 @@ theorem runU_go_layoutL {C : Codecs} {T : String → Prop} (hC : LawfulCodecs C 
         · exact h2 h
     · have hst : runUStmt C s (.retIfEmpty p d) = .next s := by rw [runUStmt, if_neg hfire]
       rw [go_next r hst]
-      exact ih u pos seen s pad hl hok.2 hrel' hfit hrest hinv hag hsz hwc
+      exact ih u pos seen s pad hl hok.2 hrel' hfit hrest hinv hag hsz hwc hpd hpl
   | case3 r ih =>
-    intro u pos seen s pad hl hok hrel hfit hrest hinv hag hsz hwc
+    intro u pos seen s pad hl hok hrel hfit hrest hinv hag hsz hwc hpd hpl
     simp only [recvFields] at hsz
     simp only [layoutUL] at hl
     simp only [okUL] at hok
     have hrel' : relationsHold C env' plen pad r = true := by simpa [relationsHold] using hrel
     have hst : runUStmt C s .resetOffset = .next { s with offset := 0 } := by rw [runUStmt]
     rw [go_next r hst]
-    exact ih u pos.reset seen _ pad hl hok hrel' hfit hrest hinv.reset hag hsz hwc
+    exact ih u pos.reset seen _ pad hl hok hrel' hfit hrest hinv.reset hag hsz hwc hpd hpl
   | case4 b e r ih =>
-    intro u pos seen s pad hl hok hrel hfit hrest hinv hag hsz hwc
+    intro u pos seen s pad hl hok hrel hfit hrest hinv hag hsz hwc hpd hpl
     simp only [recvFields] at hsz
     simp only [layoutUL] at hl
     simp only [okUL, Bool.and_eq_true] at hok
     have hrel' : relationsHold C env' plen pad r = true := by simpa [relationsHold] using hrel
-    obtain ⟨n, hn, hle⟩ := guard_passesL hC env' plen hp hd b e r u pos seen s pad hl hok.2 hok.1 hrel' hfit hinv hag hsz
+    obtain ⟨n, hn, hle⟩ := guard_passesL hC env' plen hp hd b e r u pos seen s pad hl hok.2 hok.1 hrel' hfit hinv hag hsz hpd
     have hst : runUStmt C s (.guard b e) = .next s := by
       rw [runUStmt, hn]; simp only []; rw [if_neg (by omega)]
     rw [go_next r hst]
-    exact ih u pos seen s pad hl hok.2 hrel' hfit hrest hinv hag hsz hwc
+    exact ih u pos seen s pad hl hok.2 hrel' hfit hrest hinv hag hsz hwc hpd hpl
   | case5 b e f n r ih =>
-    intro u pos seen s pad hl hok hrel hfit hrest hinv hag hsz hwc
+    intro u pos seen s pad hl hok hrel hfit hrest hinv hag hsz hwc hpd hpl
     simp only [recvFields] at hsz
     simp only [layoutUL, if_true, Option.map_eq_some_iff] at hl
     obtain ⟨u', hl', rfl⟩ := hl
@@ -388,12 +414,12 @@ theorem runU_go_layoutL {C : Codecs} {T : String → Prop} (hC : LawfulCodecs C 
     rw [hsb, intBytes_length] at hinv'
     obtain ⟨d, hd, hseen, hagree⟩ := ih u' (pos.read b) (f :: seen)
       { s with env := s.env.set f (.n x), offset := s.offset + n } pad hl' hok.2 hrel'
-      (fun sl h => hfit sl (List.mem_cons_of_mem _ h)) (restOnlyLast_tail hrest) hinv' (hag.set f (.n x) hx) (hsz.set f (.n x) hx) hwc.tail
+      (fun sl h => hfit sl (List.mem_cons_of_mem _ h)) (restOnlyLast_tail hrest) hinv' (hag.set f (.n x) hx) (hsz.set f (.n x) hx) hwc.tail hpd hpl
     exact ⟨d, by rw [go_next2 r h1 h2]; exact hd, fun g hg => hseen g (List.mem_cons_of_mem _ hg),
       fun hnf g hg => hagree hnf g (mem_shift hg)⟩
   | case6 b w e f n r hne => intro u pos seen s pad hl; simp [layoutUL, hne] at hl
   | case7 b e f n r ih =>
-    intro u pos seen s pad hl hok hrel hfit hrest hinv hag hsz hwc
+    intro u pos seen s pad hl hok hrel hfit hrest hinv hag hsz hwc hpd hpl
     simp only [recvFields] at hsz
     simp only [layoutUL, if_true, Option.map_eq_some_iff] at hl
     obtain ⟨u', hl', rfl⟩ := hl
@@ -410,12 +436,12 @@ theorem runU_go_layoutL {C : Codecs} {T : String → Prop} (hC : LawfulCodecs C 
     rw [hsb, intBytes_length] at hinv'
     obtain ⟨d, hd, hseen, hagree⟩ := ih u' (pos.read b) (f :: seen)
       { s with env := s.env.set f (.n x), offset := s.offset + n } pad hl' hok.2 hrel'
-      (fun sl h => hfit sl (List.mem_cons_of_mem _ h)) (restOnlyLast_tail hrest) hinv' (hag.set f (.n x) hx) (hsz.set f (.n x) hx) hwc.tail
+      (fun sl h => hfit sl (List.mem_cons_of_mem _ h)) (restOnlyLast_tail hrest) hinv' (hag.set f (.n x) hx) (hsz.set f (.n x) hx) hwc.tail hpd hpl
     exact ⟨d, by rw [go_next2 r h1 h2]; exact hd, fun g hg => hseen g (List.mem_cons_of_mem _ hg),
       fun hnf g hg => hagree hnf g (mem_shift hg)⟩
   | case8 b w e f n r hne => intro u pos seen s pad hl; simp [layoutUL, hne] at hl
   | case9 b f r ih =>
-    intro u pos seen s pad hl hok hrel hfit hrest hinv hag hsz hwc
+    intro u pos seen s pad hl hok hrel hfit hrest hinv hag hsz hwc hpd hpl
     simp only [recvFields] at hsz
     simp only [layoutUL, Option.map_eq_some_iff] at hl
     obtain ⟨u', hl', rfl⟩ := hl
@@ -432,36 +458,36 @@ theorem runU_go_layoutL {C : Codecs} {T : String → Prop} (hC : LawfulCodecs C 
     rw [hsb] at hinv'
     obtain ⟨d, hd, hseen, hagree⟩ := ih u' (pos.read b) (f :: seen)
       { s with env := s.env.set f (.n x), offset := s.offset + 1 } pad hl' hok.2 hrel'
-      (fun sl h => hfit sl (List.mem_cons_of_mem _ h)) (restOnlyLast_tail hrest) hinv' (hag.set f (.n x) hx) (hsz.set f (.n x) hx) hwc.tail
+      (fun sl h => hfit sl (List.mem_cons_of_mem _ h)) (restOnlyLast_tail hrest) hinv' (hag.set f (.n x) hx) (hsz.set f (.n x) hx) hwc.tail hpd hpl
     exact ⟨d, by rw [go_next2 r h1 h2]; exact hd, fun g hg => hseen g (List.mem_cons_of_mem _ hg),
       fun hnf g hg => hagree hnf g (mem_shift hg)⟩
   | case10 b f m r ih =>
-    intro u pos seen s pad hl hok hrel hfit hrest hinv hag hsz hwc
+    intro u pos seen s pad hl hok hrel hfit hrest hinv hag hsz hwc hpd hpl
     simp only [recvFields] at hsz
     simp only [layoutUL, if_true, Option.map_eq_some_iff] at hl
     obtain ⟨u', hl', rfl⟩ := hl
     simp only [okUL, Bool.and_eq_true] at hok
-    obtain ⟨⟨bs, hget, heval⟩, hrel1⟩ := rel_readBytes hrel (closed_ne_pad hok.1.2)
+    obtain ⟨bs, hget, hm, hrel1⟩ := rel_readBytes_eval hrel hok.1.2 hag hpd
     have hrel' : relationsHold C env' plen pad r = true := by simpa [relationsHold] using hrel1
     have hsb : slotBytes C env' (.bytes b f (some m)) = bs := by simp [slotBytes, hget]
     obtain ⟨pre, hblk, hoff⟩ := hinv.at (sl := .bytes b f (some m)) hok.1.1
     rw [hsb] at hblk
-    have hm : evalExpr s m = some bs.length := by rw [evalExpr_closed s env' seen hag m hok.1.2, heval]
     have h1 := step_readBytes C s b f m bs.length pre _ _ ((blk_eq_pick s b).trans hblk) hoff hm rfl
     have hag' := hag.set f (.b bs) hget
-    have hm' : evalExpr { s with env := s.env.set f (.b bs) } m = some bs.length := by
-      rw [evalExpr_closed _ env' seen hag'.weaken m hok.1.2, heval]
-    have h2 := step_advance C { s with env := s.env.set f (.b bs) } m bs.length hm'
+    obtain ⟨bs2, hget2, hm', _⟩ := rel_readBytes_eval (s := { s with env := s.env.set f (.b bs) }) hrel hok.1.2 hag'.weaken hpd
+    have hbs : bs2 = bs := by rw [hget] at hget2; injection hget2 with h; injection h with h; exact h.symm
+    subst hbs
+    have h2 := step_advance C { s with env := s.env.set f (.b bs2) } m bs2.length hm'
     have hinv' := hinv.step (sl := .bytes b f (some m)) hok.1.1
     rw [hsb] at hinv'
     obtain ⟨d, hd, hseen, hagree⟩ := ih u' (pos.read b) (f :: seen)
-      { s with env := s.env.set f (.b bs), offset := s.offset + bs.length } pad hl' hok.2 hrel'
-      (fun sl h => hfit sl (List.mem_cons_of_mem _ h)) (restOnlyLast_tail hrest) hinv' hag' (hsz.set f (.b bs) hget) hwc.tail
+      { s with env := s.env.set f (.b bs2), offset := s.offset + bs2.length } pad hl' hok.2 hrel'
+      (fun sl h => hfit sl (List.mem_cons_of_mem _ h)) (restOnlyLast_tail hrest) hinv' hag' (hsz.set f (.b bs2) hget) hwc.tail hpd hpl
     exact ⟨d, by rw [go_next2 r h1 h2]; exact hd, fun g hg => hseen g (List.mem_cons_of_mem _ hg),
       fun hnf g hg => hagree hnf g (mem_shift hg)⟩
   | case11 b f n m r hne => intro u pos seen s pad hl; simp [layoutUL, hne] at hl
   | case12 b g r ih =>
-    intro u pos seen s pad hl hok hrel hfit hrest hinv hag hsz hwc
+    intro u pos seen s pad hl hok hrel hfit hrest hinv hag hsz hwc hpd hpl
     simp only [recvFields] at hsz
     simp only [layoutUL, if_true, Option.map_eq_some_iff] at hl
     obtain ⟨u', hl', rfl⟩ := hl
@@ -485,12 +511,12 @@ theorem runU_go_layoutL {C : Codecs} {T : String → Prop} (hC : LawfulCodecs C 
     rw [hsb] at hinv'
     obtain ⟨d, hd, hseen, hagree⟩ := ih u' (pos.read b) (g :: seen)
       { s with env := s.env.set g (.b bs), offset := s.offset + bs.length } pad hl' hok.2 hrel'
-      (fun sl h => hfit sl (List.mem_cons_of_mem _ h)) (restOnlyLast_tail hrest) hinv' (hag.set g (.b bs) hget) (hsz.set g (.b bs) hget) hwc.tail
+      (fun sl h => hfit sl (List.mem_cons_of_mem _ h)) (restOnlyLast_tail hrest) hinv' (hag.set g (.b bs) hget) (hsz.set g (.b bs) hget) hwc.tail hpd hpl
     exact ⟨d, by rw [go_next2 r h1 h2]; exact hd, fun g hg => hseen g (List.mem_cons_of_mem _ hg),
       fun hnf g hg => hagree hnf g (mem_shift hg)⟩
   | case13 b f g r hne => intro u pos seen s pad hl; simp [layoutUL, hne] at hl
   | case14 b f m r ih =>
-    intro u pos seen s pad hl hok hrel hfit hrest hinv hag hsz hwc
+    intro u pos seen s pad hl hok hrel hfit hrest hinv hag hsz hwc hpd hpl
     simp only [recvFields] at hsz
     simp only [layoutUL, if_true, Option.map_eq_some_iff] at hl
     obtain ⟨u', hl', rfl⟩ := hl
@@ -506,12 +532,12 @@ theorem runU_go_layoutL {C : Codecs} {T : String → Prop} (hC : LawfulCodecs C 
     rw [hsb, ← hm] at hinv'
     obtain ⟨d, hd, hseen, hagree⟩ := ih u' (pos.read b) (f :: seen)
       { s with env := s.env.set f (.b bs), offset := s.offset + m } pad hl' hok.2 hrel'
-      (fun sl h => hfit sl (List.mem_cons_of_mem _ h)) (restOnlyLast_tail hrest) hinv' (hag.set f (.b bs) hget) (hsz.set f (.b bs) hget) hwc.tail
+      (fun sl h => hfit sl (List.mem_cons_of_mem _ h)) (restOnlyLast_tail hrest) hinv' (hag.set f (.b bs) hget) (hsz.set f (.b bs) hget) hwc.tail hpd hpl
     exact ⟨d, by rw [go_next2 r h1 h2]; exact hd, fun g hg => hseen g (List.mem_cons_of_mem _ hg),
       fun hnf g hg => hagree hnf g (mem_shift hg)⟩
   | case15 b f n m r hne => intro u pos seen s pad hl; simp [layoutUL, hne] at hl
   | case16 b f t win r ih =>
-    intro u pos seen s pad hl hok hrel hfit hrest hinv hag hsz hwc
+    intro u pos seen s pad hl hok hrel hfit hrest hinv hag hsz hwc hpd hpl
     simp only [recvFields] at hsz
     simp only [layoutUL, Option.map_eq_some_iff] at hl
     obtain ⟨u', hl', rfl⟩ := hl
@@ -543,11 +569,11 @@ theorem runU_go_layoutL {C : Codecs} {T : String → Prop} (hC : LawfulCodecs C 
     rw [hsb] at hinv'
     obtain ⟨d, hd, hseen, hagree⟩ := ih u' (pos.read b) (f :: seen)
       { s with env := s.env.set f (.t v2), bytesRead := bs.length, offset := s.offset + bs.length } pad hl' hok.2 hrel'
-      (fun sl h => hfit sl (List.mem_cons_of_mem _ h)) (restOnlyLast_tail hrest) hinv' (hag.set f (.t v2) hget) (hsz.set f (.t v2) hget) hwc.tail
+      (fun sl h => hfit sl (List.mem_cons_of_mem _ h)) (restOnlyLast_tail hrest) hinv' (hag.set f (.t v2) hget) (hsz.set f (.t v2) hget) hwc.tail hpd hpl
     exact ⟨d, by rw [go_next2 r h1 h2]; exact hd, fun g hg => hseen g (List.mem_cons_of_mem _ hg),
       fun hnf g hg => hagree hnf g (mem_shift hg)⟩
   | case17 f g b w e f' g' r hfg ih =>
-    intro u pos seen s pad hl hok hrel hfit hrest hinv hag hsz hwc
+    intro u pos seen s pad hl hok hrel hfit hrest hinv hag hsz hwc hpd hpl
     simp only [recvFields] at hsz
     obtain ⟨rfl, rfl⟩ := hfg
     simp only [layoutUL, and_self, if_true, Option.map_eq_some_iff] at hl
@@ -581,12 +607,12 @@ theorem runU_go_layoutL {C : Codecs} {T : String → Prop} (hC : LawfulCodecs C 
     obtain ⟨d, hd, hseen, hagree⟩ := ih u' (pos.read b) (f :: seen)
       { s with env := (s.env.set f (.ns (List.replicate k 0))).set f (.ns xs2), offset := s.offset + w * xs2.length } pad hl' hok.2 hrel'
       (fun sl h => hfit sl (List.mem_cons_of_mem _ h)) (restOnlyLast_tail hrest) hinv'
-      ((hag.set f (.ns xs2) hgetf).congr_left hgs) ((hsz.set f (.ns xs2) hgetf).congr_left hgs) hwc.tail
+      ((hag.set f (.ns xs2) hgetf).congr_left hgs) ((hsz.set f (.ns xs2) hgetf).congr_left hgs) hwc.tail hpd hpl
     exact ⟨d, by rw [go_next2 r h1 h2]; exact hd, fun g hg => hseen g (List.mem_cons_of_mem _ hg),
       fun hnf g hg => hagree hnf g (mem_shift hg)⟩
   | case18 f g b w e f' g' r hne => intro u pos seen s pad hl; simp [layoutUL, hne] at hl
   | case19 b w e f r ih =>
-    intro u pos seen s pad hl hok hrel hfit hrest hinv hag hsz hwc
+    intro u pos seen s pad hl hok hrel hfit hrest hinv hag hsz hwc hpd hpl
     simp only [layoutUL, Option.map_eq_some_iff] at hl
     obtain ⟨u', hl', rfl⟩ := hl
     simp only [okUL, Bool.and_eq_true] at hok
@@ -610,11 +636,11 @@ theorem runU_go_layoutL {C : Codecs} {T : String → Prop} (hC : LawfulCodecs C 
     obtain ⟨d, hd, hseen, hagree⟩ := ih u' (pos.read b) (f :: seen)
       { s with env := s.env.set f (.ns xs2), offset := s.offset + w * xs2.length } pad hl' hok.2 hrel'
       (fun sl h => hfit sl (List.mem_cons_of_mem _ h)) (restOnlyLast_tail hrest) hinv'
-      (hag.set f (.ns xs2) hgetf) (hsz'.set f (.ns xs2) hgetf) hwc.tail
+      (hag.set f (.ns xs2) hgetf) (hsz'.set f (.ns xs2) hgetf) hwc.tail hpd hpl
     exact ⟨d, by rw [go_next r h1]; exact hd, fun g hg => hseen g (List.mem_cons_of_mem _ hg),
       fun hnf g hg => hagree hnf g (mem_shift hg)⟩
   | case20 b f g t size r ih =>
-    intro u pos seen s pad hl hok hrel hfit hrest hinv hag hsz hwc
+    intro u pos seen s pad hl hok hrel hfit hrest hinv hag hsz hwc hpd hpl
     simp only [recvFields] at hsz
     simp only [layoutUL, if_true, Option.map_eq_some_iff] at hl
     obtain ⟨u', hl', rfl⟩ := hl
@@ -650,12 +676,12 @@ theorem runU_go_layoutL {C : Codecs} {T : String → Prop} (hC : LawfulCodecs C 
     obtain ⟨d, hd, hseen, hagree⟩ := ih u' (pos.read b) (f :: seen)
       { s with env := (s.env.set f (.ts [])).set f (.ts vs2), offset := s.offset + size * vs2.length } pad hl' hok.2 hrel'
       (fun sl h => hfit sl (List.mem_cons_of_mem _ h)) (restOnlyLast_tail hrest) hinv'
-      ((hag.set f (.ts vs2) hgetf).congr_left hgs) ((hsz.set f (.ts vs2) hgetf).congr_left hgs) hwc.tail
+      ((hag.set f (.ts vs2) hgetf).congr_left hgs) ((hsz.set f (.ts vs2) hgetf).congr_left hgs) hwc.tail hpd hpl
     exact ⟨d, by rw [go_next2 r h1 h2]; exact hd, fun g hg => hseen g (List.mem_cons_of_mem _ hg),
       fun hnf g hg => hagree hnf g (mem_shift hg)⟩
   | case21 f b f' g t size r hne => intro u pos seen s pad hl; simp [layoutUL, hne] at hl
   | case22 b f m =>
-    intro u pos seen s pad hl hok hrel hfit hrest hinv hag hsz hwc
+    intro u pos seen s pad hl hok hrel hfit hrest hinv hag hsz hwc hpd hpl
     simp only [layoutUL, Option.some.injEq] at hl
     subst hl
     simp only [okUL, Bool.and_eq_true] at hok
@@ -673,7 +699,7 @@ theorem runU_go_layoutL {C : Codecs} {T : String → Prop} (hC : LawfulCodecs C 
       subst hg
       exact hag' g (List.mem_cons_self ..)
   | case23 k b n b' w e f m r hcond ih =>
-    intro u pos seen s pad hl hok hrel hfit hrest hinv hag hsz hwc
+    intro u pos seen s pad hl hok hrel hfit hrest hinv hag hsz hwc hpd hpl
     obtain ⟨rfl, hn, hm⟩ := hcond
     subst hm
     subst hn
@@ -702,7 +728,7 @@ theorem runU_go_layoutL {C : Codecs} {T : String → Prop} (hC : LawfulCodecs C 
         · rw [hsf, hx, hx0]
         · exact hag g hg
       obtain ⟨d, hd, hseen, hagree⟩ := ih u' (pos.read b) (f :: seen) s pad hl' hok.2 hrel'
-        (fun sl h => hfit sl (List.mem_cons_of_mem _ h)) (restOnlyLast_tail hrest) hinv' hag' hsz' hwc.tail
+        (fun sl h => hfit sl (List.mem_cons_of_mem _ h)) (restOnlyLast_tail hrest) hinv' hag' hsz' hwc.tail hpd hpl
       exact ⟨d, by rw [go_next r h1]; exact hd, fun g hg => hseen g (List.mem_cons_of_mem _ hg),
         fun hnf g hg => hagree hnf g (mem_shift hg)⟩
     · -- the field is on the wire and the word count says so
@@ -727,11 +753,45 @@ theorem runU_go_layoutL {C : Codecs} {T : String → Prop} (hC : LawfulCodecs C 
       obtain ⟨d, hd, hseen, hagree⟩ := ih u' (pos.read b) (f :: seen)
         { s with env := s.env.set f (.n x), offset := s.offset + n } pad hl' hok.2 hrel'
         (fun sl h => hfit sl (List.mem_cons_of_mem _ h)) (restOnlyLast_tail hrest) hinv' (hag.set f (.n x) hx)
-        (hsz'.set f (.n x) hx) hwc.tail
+        (hsz'.set f (.n x) hx) hwc.tail hpd hpl
       exact ⟨d, by rw [go_next r h1]; exact hd, fun g hg => hseen g (List.mem_cons_of_mem _ hg),
         fun hnf g hg => hagree hnf g (mem_shift hg)⟩
   | case24 k b n b' w e f m r hc => intro u pos seen s pad hl; simp [layoutUL, hc] at hl
-  | case25 head tail h1 h2 h3 h4 h5 h6 h7 h8 h9 h10 h11 h12 h13 h14 h15 =>
+  | case25 e r ih =>
+    intro u pos seen s pad hl hok hrel hfit hrest hinv hag hsz hwc hpd hpl
+    simp only [recvFields] at hsz
+    simp only [layoutUL] at hl
+    simp only [okUL, Bool.and_eq_true] at hok
+    unfold relationsHold at hrel
+    split at hrel
+    · rename_i n hn
+      have hev : evalExpr s e = some n := by rw [evalExpr_closed s env' seen hag e hok.1, hn]
+      have h1 : runUStmt C s (.setPad e) = .next { s with pad := n } := by rw [runUStmt, hev]
+      rw [go_next r h1]
+      exact ih u pos seen { s with pad := n } n hl hok.2 hrel hfit hrest hinv hag hsz hwc rfl hpl
+    · cases hrel
+  | case26 r ih =>
+    intro u pos seen s pad hl hok hrel hfit hrest hinv hag hsz hwc hpd hpl
+    simp only [recvFields] at hsz
+    simp only [layoutUL] at hl
+    simp only [okUL] at hok
+    subst hpd
+    unfold relationsHold at hrel
+    have h1 : runUStmt C s .padRoundUp = .next { s with pad := if s.pad % 2 = 1 then s.pad + 1 else s.pad } := by rw [runUStmt]
+    rw [go_next r h1]
+    exact ih u pos seen _ _ hl hok hrel hfit hrest hinv hag hsz hwc rfl hpl
+  | case27 r ih =>
+    intro u pos seen s pad hl hok hrel hfit hrest hinv hag hsz hwc hpd hpl
+    simp only [recvFields] at hsz
+    simp only [layoutUL] at hl
+    simp only [okUL] at hok
+    subst hpd
+    subst hpl
+    unfold relationsHold at hrel
+    have h1 : runUStmt C s .padIfPOdd = .next { s with pad := if (s.P.length + 3) % 2 = 1 then 1 else s.pad } := by rw [runUStmt]
+    rw [go_next r h1]
+    exact ih u pos seen _ _ hl hok hrel hfit hrest hinv hag hsz hwc rfl rfl
+  | case28 head tail h1 h2 h3 h4 h5 h6 h7 h8 h9 h10 h11 h12 h13 h14 h15 h16 h17 h18 =>
     intro u pos seen s pad hl
     rw [layoutUL] at hl
     · cases hl
